@@ -20,7 +20,7 @@ RULE = ("e2e case = (protocol version, token/key (bytes or hex) / device id, dev
         "of the control body that arrived after V2 unwrap / V3 decrypt) equals the state assigned through A's public setters, and B's "
         "public attributes equal the device state. Concurrent case = 2..4 client instances issuing mixed apply/refresh against one device "
         "with random per-message latencies; every applied state embeds a unique version (fan, humidity) and every refresh must report a "
-        "version that was current at some instant between its call and its return (register interval check). distinct = distinct case "
+        "version that was current at some instant between its call and its return (register interval check); the device may push an unsolicited report of every state change to the other open connections with its own latency, and bytes that catch up with delayed bytes arrive coalesced in one segment. Re-apply case = A applies X, a second controller changes the device to Y, A applies X again (with or without a refresh in between): the device must end in X. distinct = distinct case "
         "parameters; all non-trivial")
 ASSUMPTIONS = ["unsolicited frames never describe a stale state", "values outside the stated domains (e.g. 20.3 C, fan 200) are not generated",
                "oracle choices of C10/C11 for bit positions apply",
@@ -69,9 +69,15 @@ def generate(ctx, rng):
     for _ in range(1300 if quick else 90000):
         i += 1
         yield ("rnd", i), _case(rng, gen.random_state(rng))
-    for j in range(60 if quick else 4500):
+    for j in range(90 if quick else 6000):
         yield ("conc", j), {"kind": "concurrent", "version": rng.choice([2, 3]), "nclients": rng.randint(2, 4),
-                            "nops": rng.randint(6, 14), "cseed": rng.getrandbits(32), "unsolicited": rng.random() < 0.5}
+                            "nops": rng.randint(6, 14), "cseed": rng.getrandbits(32), "unsolicited": rng.random() < 0.5,
+                            "push": j % 3 != 0, "coalesce": j % 2 == 0}
+    # the same state applied again after another controller changed the device in between (no refresh in between)
+    for j in range(40 if quick else 3000):
+        yield ("reapply", j), {"kind": "reapply", "version": rng.choice([2, 3]), "x": gen.random_state(rng), "y": gen.random_state(rng),
+                               "refresh_between": rng.random() < 0.3, "rounds": rng.randint(1, 3), "cseed": rng.getrandbits(32),
+                               "push": rng.random() < 0.5}
 
 
 def _cut(stream_packets, seg, r):
@@ -105,6 +111,8 @@ def _cut(stream_packets, seg, r):
 def run_case(ctx, case):
     if case["kind"] == "concurrent":
         return _concurrent(ctx, case)
+    if case["kind"] == "reapply":
+        return _reapply(ctx, case)
     version = case["version"]
     token, key = bytes(case["token"]), bytes(case["key"])
     key_arg = key.hex() if case["key_form"] == "hex" else key
@@ -207,6 +215,9 @@ def _concurrent(ctx, case):
     model = ACModel()
     dev = SimDevice(net, version=version, token=token, key=key, device_id=0xC01, ac=model, seed=case["cseed"])
     dev.fifo = True
+    dev.coalesce = bool(case.get("coalesce"))
+    dev.push_reports = bool(case.get("push"))
+    dev.push_latency = lambda: r.choice([0.0, 0.05, 0.4, 0.9, 1.6])
 
     def on_exchange(conn, req, packets, meta):
         lat = r.choice([0.0, 0.01, 0.2, 0.7, 1.3])
@@ -282,6 +293,16 @@ def _concurrent(ctx, case):
                 ok = True
                 break
         if not ok:
+            # A frame (pushed report, or the late response to an earlier request that had been satisfied by a report) that was
+            # rendered BEFORE this refresh started but was still in flight and reached the client during the exchange is stale
+            # on arrival.  The statement's unsolicited/duplicated responses are read conservatively as describing the device's
+            # current state, so a refresh whose result is exactly such a frame is not judged (counted), see DESIGN.md section 4.
+            inflight = [p for p in dev.pushes + dev.deliveries
+                        if p["t_render"] < t0 - 1e-9 and p["t_deliver"] >= t0 - 1e-9 and p["t_deliver"] <= t1 + 1e-6
+                        and (p["state"]["fan"], p["state"]["target_humidity"]) == obs]
+            if inflight:
+                ctx.skip("refresh answered by a frame rendered before it started and still in flight (not judged)")
+                continue
             bad += 1
             ctx.violation("stale-or-foreign-read", f"client {idx} refresh [{t0:.3f},{t1:.3f}] reported version {obs} that was not current in that interval",
                           case, {"timeline": timeline[-8:]})
@@ -297,3 +318,52 @@ def _concurrent(ctx, case):
 
 def model_initial_fan():
     return acstate.default_state()["fan"]
+
+
+def _reapply(ctx, case):
+    """A applies X, controller B changes the device to Y, A applies X again: the device must end in X every time."""
+    version = case["version"]
+    r = random.Random(case["cseed"])
+    token, key = r.randbytes(64), r.randbytes(32)
+    net = H.new_net()
+    model = ACModel()
+    dev = SimDevice(net, version=version, token=token, key=key, device_id=0xC01A, ac=model, seed=case["cseed"])
+    dev.push_reports = bool(case.get("push"))
+    x, y = case["x"], case["y"]
+    out = []
+
+    async def go(loop):
+        a = AC(ip=dev.host, port=dev.port, device_id=dev.device_id)
+        b = AC(ip=dev.host, port=dev.port, device_id=dev.device_id)
+        if version == 3:
+            await a.authenticate(token, key)
+            await b.authenticate(token, key)
+        for rnd in range(case["rounds"]):
+            gen.apply_to_ac(a, x)
+            await a.apply()
+            out.append(("a-applies-x", rnd, dict(model.state)))
+            gen.apply_to_ac(b, y)
+            await b.apply()
+            out.append(("b-applies-y", rnd, dict(model.state)))
+            if case["refresh_between"]:
+                await a.refresh()
+            gen.apply_to_ac(a, x)
+            await a.apply()
+            out.append(("a-applies-x-again", rnd, dict(model.state)))
+
+    k = ("reapply", version, gen.state_key(x), gen.state_key(y), case["refresh_between"], case["rounds"], case.get("push"))
+    try:
+        H.run_virtual(go, net)
+    except Exception as e:  # noqa: BLE001
+        ctx.count(k, kind="reapply-raised")
+        ctx.violation(f"reapply-raises/{type(e).__name__}", f"{type(e).__name__}: {e}", case)
+        return
+    bad = False
+    for step, rnd, st in out:
+        want = gen.expected_device_state(y if step == "b-applies-y" else x)
+        diffs = {f: (want[f], st[f]) for f in want if st[f] != want[f]}
+        if diffs:
+            bad = True
+            ctx.violation("reapplied-state-not-sent", f"round {rnd} step {step}: device holds {diffs} (V{version}, refresh between={case['refresh_between']})", case)
+            break
+    ctx.count(k, kind="e2e-bad" if bad else "e2e-ok", sample={"version": version, "rounds": case["rounds"], "refresh_between": case["refresh_between"]})
